@@ -22,8 +22,62 @@ def nontrivial(sh):
     return P.count_kind(sh, 'decl') >= 2
 
 
+def hook(g, rng):
+    """besides the free generator: (A) an @media that receives SEVERAL inner @media during rotation (written directly in it, through rules,
+    through &-rules, mixed); (B) variables as media feature values, defined at top level and shadowed by rules lying between two @media"""
+    k = rng.random()
+    if k < 0.55:
+        return g.sheet(nunits=rng.choice([1, 1, 2, 3]), depth=rng.randint(1, 3))
+
+    def q(first, var=None):
+        typ, feats = g.query(allow_type=first)
+        if var and rng.random() < 0.7:
+            f = rng.choice(['min-width', 'max-width', 'min-height'])
+            feats = feats[:1] + [(f, var)] if rng.random() < 0.5 else [(f, var)] + feats[:1]
+            if not first:
+                typ = None
+        return (typ, feats)
+
+    def inner(var, depth=0):
+        body = [g.decl([])]
+        if depth < 1 and rng.random() < 0.4:
+            body.append(('media', q(False, var), [g.decl([])]))
+        return ('media', q(False, var), body)
+
+    var = '@mw' if k >= 0.8 else None
+    kids = []
+    for _ in range(rng.choice([2, 2, 3])):
+        shape = rng.random()
+        if shape < 0.4:
+            kids.append(inner(var))
+        else:
+            body = []
+            if var and rng.random() < 0.6:
+                body.append(('var', var, [('num', rng.choice(['7px', '20em', '300px']))]))      # shadows the outer definition between the two @media
+            if rng.random() < 0.5:
+                body.append(g.decl([]))
+            body.append(inner(var))
+            if rng.random() < 0.3:
+                body.append(inner(var))
+            kids.append(('rule', g.selectors(nested=True), body, {'sp_brace': True}))
+    if rng.random() < 0.5:
+        kids.insert(rng.randint(0, len(kids)), g.decl([]) if rng.random() < 0.5 else g.rule(0, True, []))
+    outer = ('media', q(True, var), kids)
+    sh = []
+    if var:
+        sh.append(('var', var, [('num', rng.choice(['5px', '10em', '640px']))]))
+    if rng.random() < 0.6 or not all(x[0] == 'rule' for x in kids):
+        pre = [('var', var, [('num', '9px')])] if (var and rng.random() < 0.4) else []
+        top = ('rule', g.selectors(False), pre + [x for x in [g.decl([])] if rng.random() < 0.5] + [outer], {'sp_brace': True})
+        # declarations directly inside an @media need an enclosing rule
+        sh.append(top)
+    else:
+        sh.append(outer)
+    return sh
+
+
 def run(ctx):
-    return P.run_sheets(ctx, 7, FEATURES, 120, 3000, depth=3, all_opts=False, wild=False, nontrivial=nontrivial)
+    return P.run_sheets(ctx, 7, FEATURES, 120, 3000, depth=3, all_opts=False, wild=False, nontrivial=nontrivial, gen_hook=hook)
 
 
 replay = P.replay
